@@ -11,7 +11,7 @@ func init() { register("C08", rulesC08) }
 
 func rulesC08(c *Ctx) {
 	c.Explain = append(c.Explain,
-		"C08 (a failed transaction changes nothing but fee and nonce) — decided: (a) WTF, an interprocedural effect analysis over all module functions: for every transaction handler entry (ExecuteTx of every application, ExecuteMessage of every message subscriber) there is no path on which consensus state is written through the non-transactional context (mkvs.KeyValueTree mutators reached through state wrappers built from that context, committed child transactions, message publication) and afterwards an error that is not a storage failure is returned; writes through a context obtained from NewTransaction() are rolled back and do not count unless committed; (b) AuthenticateAndPayFees has no write-then-fail path at all (a transaction rejected at authentication changes nothing) and its writes are excluded in CheckTx/simulation; in processTx the only calls that may write before ExecuteTx are AuthenticateTx; (c) CheckTx/simulation contexts are built on trees other than the delivery tree.",
+		"C08 (a failed transaction changes nothing but fee and nonce) — decided: (a) WTF, an interprocedural effect analysis over all module functions: for every transaction handler entry (ExecuteTx of every application, ExecuteMessage of every message subscriber) there is no path on which consensus state is written through the non-transactional context (mkvs.KeyValueTree mutators reached through state wrappers built from that context, committed child transactions, message publication) and afterwards an error that is not a storage failure is returned; writes through a context obtained from NewTransaction() are rolled back and do not count unless committed; mutations of objects held in the per-block context (ctx.BlockContext(), e.g. the set of runtimes to finalize in EndBlock) made by the applications count as writes that nothing rolls back, also inside a transaction context; (b) AuthenticateAndPayFees has no write-then-fail path at all (a transaction rejected at authentication changes nothing) and its writes are excluded in CheckTx/simulation; in processTx the only calls that may write before ExecuteTx are AuthenticateTx; (c) CheckTx/simulation contexts are built on trees other than the delivery tree.",
 		"NOT decided: byte-identity of the post-state; that fee/nonce are charged exactly; panics after writes (C10); writes hidden behind reflection or non-module interfaces (assumed none).")
 	w := newWTF(c.P)
 	for k, v := range c.Table("wtf_storageonly") {
@@ -33,6 +33,16 @@ func rulesC08(c *Ctx) {
 		}
 	}
 	c.Extra["wtf_writers"] = nW
+	{
+		var bw []string
+		for _, fn := range w.fns {
+			if len(w.WB[fn]) > 0 {
+				bw = append(bw, fname(fn))
+			}
+		}
+		sort.Strings(bw)
+		c.Extra["wtf_block_context_writers"] = bw
+	}
 	c.Extra["wtf_may_fail_nonstorage"] = nNSF
 	c.Extra["wtf_dirty_fail_functions"] = nDF
 
